@@ -248,6 +248,20 @@ CLAIMED = {
             'Reference reader rules in vf/props/c11.py (from the CASA region '
             'format description and the property statement).',
             'DESIGN.md section 5, C11'),
+    'C12': ('exploration',
+            'Hypothesis round-trip / fixed-point tests of FITS region tables '
+            '(in memory and through files) over mixed lists with include and '
+            'component patterns; metamorphic skip relation; hand-built tables '
+            'in the alternative FITS notations',
+            'Random search over lists of 1-8 mixed FITS-representable regions '
+            '(columns padded to a common width) x include x component '
+            'absent/all/partial x memory/file x extension; geometry compared '
+            'exactly, angles to 8 eps. The polygon-padding defect is a listed '
+            'known finding (excluded by giving all polygons of a list the '
+            'widest vertex count, probed separately).',
+            'astropy.table / astropy.io.fits for storage; files under '
+            '/verif/.scratch removed by the check.',
+            'DESIGN.md section 5, C12'),
 }
 
 PENDING_REASON = ('check designed (DESIGN.md section 5) but not yet built and '
